@@ -114,6 +114,12 @@ func (ds *DatastoreConfig) ValidateSetDefaults() error {
 		if err = ds.Sync.validateSetDefaults(); err != nil {
 			return err
 		}
+		for _, sp := range ds.Sync.Config {
+			// the periodic syncs (netconf, gnmi get and once) run on a ticker, which takes a positive interval only
+			if sp != nil && sp.Interval <= 0 && (ds.SBI.Type == sbiNETCONF || sp.Mode == "get" || sp.Mode == "once") {
+				return fmt.Errorf("sync %q: a positive interval is required", sp.Name)
+			}
+		}
 	}
 
 	if ds.Validation == nil {
